@@ -73,6 +73,31 @@ func runModGraph(args []*Sexp) *Sexp {
 	}
 	g1 := ugo.Map{"log": ugo.Array{}, "apply": mkApply(false), "applyp": mkApply(true), "g": ugo.Map{}}
 	r1 := runBytecode(bc, g1)
+	// a third run on a VM that ran another program (with as many modules, imported and changed in place) before and
+	// was given this Bytecode with SetBytecode: the modules of this program are loaded by their own bodies
+	if args[1].Atom != "1" {
+		var pre strings.Builder
+		pre.WriteString("out := 0\n")
+		for i := 0; i < bc.NumModules && i < 6; i++ {
+			fmt.Fprintf(&pre, "p%d := import(\"pre%d\")\np%d.n = 41\nout += p%d.n\n", i, i, i, i)
+		}
+		pre.WriteString("return out\n")
+		pmm := ugo.NewModuleMap()
+		for i := 0; i < 6; i++ {
+			pmm.AddSourceModule(fmt.Sprintf("pre%d", i), []byte(fmt.Sprintf("return {n: %d, name: \"pre%d\", set: func(v) { }, get: func() { return -1 }, box: [-1]}", i, i)))
+		}
+		if pbc, perr, ppan := compileSrc([]byte(pre.String()), ugo.CompilerOptions{ModuleMap: pmm}); perr == nil && ppan == nil {
+			vm := ugo.NewVM(pbc)
+			if _, err := vm.Run(nil); err == nil {
+				vm.SetBytecode(bc)
+				g3 := ugo.Map{"log": ugo.Array{}, "apply": mkApply(false), "applyp": mkApply(true), "g": ugo.Map{}}
+				r3 := runVM(vm, g3)
+				if r3.String() != r1.String() || SexpOfValue(g3["log"]).String() != SexpOfValue(g1["log"]).String() {
+					return L(A("modgraph-reused-vm"), r1, SexpOfValue(g1["log"]), r3, SexpOfValue(g3["log"]))
+				}
+			}
+		}
+	}
 	g2 := ugo.Map{"log": ugo.Array{}, "apply": mkApply(false), "applyp": mkApply(true), "g": ugo.Map{}}
 	r2 := runBytecode(bc, g2)
 	return L(A("modgraph"), r1, SexpOfValue(g1["log"]), r2, SexpOfValue(g2["log"]), pairs, A(fmt.Sprint(bc.NumModules)))
